@@ -182,12 +182,20 @@ def started_after_cancel(rr, info) -> list:
 
 def cancel_propagation(rr, info) -> list:
     """A worker that never learns of a cancellation cannot stop starting
-    the cancelled work: if a descendant-or-self of a cancelled address
-    starts, after the cancellation was issued, on a worker that does not
-    receive the CANCEL before the system falls idle, descendants have not
-    "stopped being started" there and never would.  (Starting work that
-    was already queued on a worker which *is* told, a little later, is the
-    legal non-pre-emptive behaviour and is not flagged.)"""
+    the cancelled work.  Stated by harm, not by mechanism: a violation is a
+    task x whose body starts on worker W after a cancellation covering x
+    (x itself or one of its ancestors) was issued, where W is still alive
+    at idle quiescence and has by then received no CANCEL for x or any of
+    its ancestors -- descendants have not "stopped being started" on W and
+    never would.  (Starting work that was already queued on a worker which
+    *is* told a little later is the legal non-pre-emptive behaviour; so is
+    a worker that ended before the news could reach it.)
+
+    Cancellations are taken from three sources: CANCEL messages workers and
+    the server put on the wire; client cancel() calls that were
+    acknowledged; and, from the task bodies' own records, every slot of a
+    future a task cancelled explicitly or abandoned when it finished --
+    whether or not the runtime sent anything for that slot."""
     out = []
     snap = rr.idle_snapshot
     if snap is None:
@@ -225,7 +233,45 @@ def cancel_propagation(rr, info) -> list:
                 if mb is not None and h.get('ret', 0) <= idle_seq:
                     a = (-1, mb, 0)
                     issued[a] = min(issued.get(a, 10 ** 12), h['ret'])
+    # every slot of a future that a task cancelled (explicit cancel) or
+    # abandoned (unfinished when the task returned)
+    n_slots = 0
+    addr_of = {}
+    finish_at = {}
+    for r in rr.rec:
+        if r[1] == 'start' and r[3][1] is not None:
+            addr_of.setdefault(r[2], tuple(r[3][1]))
+        elif r[1] == 'finish':
+            finish_at.setdefault(r[2], r[0])
+    fut_children = {}
+    fut_fate = {}
+    for ci, i, name, prog, ref in C.refs_of(rr):
+        fut_children.update(ref.fut_children)
+        fut_fate.update(ref.fut_fate)
+    cancel_at = {}
+    for r in rr.rec:
+        if r[1] == 'cancel-done' and r[0] <= idle_seq:
+            cancel_at.setdefault((r[2], r[4]), r[0])
+    # abandoned futures are cancelled when the runtime processes the
+    # task's completion (not when the body returns): right after it sent
+    # the task's RESULT
+    result_sent = {}
+    for seq, ev, src, dst, desc in C.wire(rr):
+        if ev == 'SEND' and desc[0] == 'RESULT' and src.startswith('w') \
+                and isinstance(desc[1], tuple) and seq <= idle_seq:
+            result_sent.setdefault(desc[1], seq)
+    for (nid, f), fate in fut_fate.items():
+        a = addr_of.get(nid)
+        if fate is None and a in result_sent:
+            cancel_at.setdefault((nid, f), result_sent[a])
+    for key, t in cancel_at.items():
+        for cid in fut_children.get(key, []):
+            a = addr_of.get(cid)
+            if a is not None:
+                n_slots += 1
+                issued[a] = min(issued.get(a, 10 ** 12), t)
     info['cancels_tracked'] = len(issued)
+    info['cancelled_slots_tracked'] = n_slots
     if not issued:
         return out
     _cancel_point_probes(rr, info, issued, got)
@@ -233,6 +279,10 @@ def cancel_propagation(rr, info) -> list:
     # only compilation returned, crash) starts nothing further: only
     # workers still alive at idle can be "never told"
     alive = set(getattr(rr, 'alive_at_idle', None) or [])
+    told = {}             # worker -> set of addresses it received
+    for a, ws in got.items():
+        for w in ws:
+            told.setdefault(w, set()).add(a)
     for r in rr.rec:
         if r[1] != 'start' or r[0] > idle_seq:
             continue
@@ -240,19 +290,24 @@ def cancel_propagation(rr, info) -> list:
         if addr is None:
             continue
         wname = f'w{wid}'
-        for a in C.ancestors_or_self(rr, tuple(addr)):
-            t_issue = issued.get(a)
-            if t_issue is None or r[0] < t_issue:
-                continue
-            if wname in alive and wname not in got.get(a, {}):
-                out.append(C.V(
-                    'CANCEL_NOT_PROPAGATED',
-                    'client-cancel' if a[0] == -1 else 'task-cancel',
-                    f'task {tuple(addr)} (node {r[2]}), a descendant of '
-                    f'cancelled {a}, started on {wname} after the cancel '
-                    f'was issued, and {wname} is never told about the '
-                    f'cancel before the system falls idle'))
-                return out
+        if wname not in alive:
+            continue
+        anc = C.ancestors_or_self(rr, tuple(addr))
+        covering = [a for a in anc
+                    if a in issued and issued[a] <= r[0]]
+        if not covering:
+            continue
+        if any(a in told.get(wname, ()) for a in anc):
+            continue
+        a = covering[0]
+        out.append(C.V(
+            'CANCEL_NOT_PROPAGATED',
+            'client-cancel' if a[0] == -1 else 'task-cancel',
+            f'task {tuple(addr)} (node {r[2]}), a descendant of '
+            f'cancelled {a}, started on {wname} after the cancel '
+            f'was issued, and {wname} is never told about the '
+            f'cancel before the system falls idle'))
+        return out
     return out
 
 
